@@ -68,11 +68,18 @@ def build_extract():
 
 
 def build_harness():
-    """Always rebuilt: it links /repo's current working tree."""
+    """Always rebuilt: it links the working tree of REPO (default /repo)."""
     tgt = os.path.join(BIN, "harness")
     src = os.path.join(VERIF, "harness")
     shutil.copyfile(os.path.join(REPO, "go.sum"), os.path.join(src, "go.sum"))
-    rc, out = sh([GO, "build", "-tags", "verif", "-o", tgt, "./cmd/harness"], cwd=src, env=GOENV, timeout=900)
+    argv = [GO, "build", "-tags", "verif", "-o", tgt]
+    if REPO != "/repo":
+        # scratch copy of the library (self-tests against seeded changes): alternate go.mod
+        mf = os.path.join(WORK, "harness.go.mod")
+        open(mf, "w").write(open(os.path.join(src, "go.mod")).read().replace("=> /repo", "=> " + REPO))
+        shutil.copyfile(os.path.join(REPO, "go.sum"), os.path.join(WORK, "harness.go.sum"))
+        argv += ["-modfile", mf]
+    rc, out = sh(argv + ["./cmd/harness"], cwd=src, env=GOENV, timeout=900)
     return None if rc == 0 else out
 
 
